@@ -58,12 +58,56 @@ def valid_request(rng, k, mode, method=None, extra_headers=()):
     return {"tag": tag, "method": method, "raw": head + b"\r\n" + body}
 
 
+def server_side(rng, source, case, M, ms):
+    """Fill case['server'] (raw origin / upstream-proxy answer) for a server-side error source."""
+    S = mb(ms)
+    S1 = S.replace(b"\n", b" ")
+    if source == "resp-line":
+        resp = rng.choice([b"HTTP/1.1 " + M + b" OK", M, b"HTTP/1.1 2" + M + b"0 OK", b"HTTP/1.1"]) + b"\r\nContent-Length: 0\r\n\r\n"
+    elif source == "resp-version":
+        resp = b"HTTP/" + M + b" 200 OK\r\nContent-Length: 0\r\n\r\n"
+    elif source == "resp-header-nocolon":
+        resp = b"HTTP/1.1 200 OK\r\n" + S1 + b"\r\nContent-Length: 0\r\n\r\n"
+    elif source == "resp-cl-invalid":
+        resp = b"HTTP/1.1 200 OK\r\nContent-Length: " + S1 + b"\r\n\r\n"
+    elif source == "resp-te-unknown":
+        resp = b"HTTP/1.1 200 OK\r\nTransfer-Encoding: " + S1 + b"\r\n\r\n"
+    elif source == "resp-name-invalid":
+        resp = b"HTTP/1.1 200 OK\r\nX" + M.replace(b":", b"") + b": v\r\nContent-Length: 0\r\n\r\n"
+    elif source == "resp-partial-eof":
+        resp = rng.choice([b"HTTP/1.1 200 OK\r\nX-Y: " + S1, S1, b"HTTP/1.1 200 " + M])
+    elif source == "resp-close":
+        resp = b""
+        case["reflect"] = False
+    elif source == "resp-chunk-bad":
+        resp = b"HTTP/1.1 200 OK\r\nTransfer-Encoding: chunked\r\n\r\n" + rng.choice([M + b"\r\nabc\r\n0\r\n\r\n", b"3\r\nabc" + M + b"\r\n0\r\n\r\n", b"3;" + M + b"\r\nabc\r\n0\r\n\r\n"])
+        case["reflect"] = None  # depends on what h11 says
+    elif source == "resp-too-large":
+        case["options"]["body_size_limit"] = "3"
+        resp = b"HTTP/1.1 200 OK\r\nX-M: " + S1 + b"\r\nContent-Length: 10\r\n\r\n0123456789"
+        case["reflect"] = False
+    elif source == "resp-te-204":
+        resp = b"HTTP/1.1 204 " + M + b"\r\nTransfer-Encoding: chunked\r\n\r\n"
+        case["reflect"] = False
+    elif source == "upstream-proxy-refused":
+        case["via"] = True
+        resp = b"HTTP/1.1 " + rng.choice([b"407", b"403", b"502"]) + b" " + S1 + b"\r\nContent-Length: 0\r\n\r\n"
+    elif source == "upstream-proxy-garbage":
+        case["via"] = True
+        resp = rng.choice([S1 + b"\r\n\r\n", b"HTTP/1.1 " + M + b" x\r\n\r\n", b"HTTP/1.1 200 OK\r\n" + S1 + b"\r\n\r\n"])
+    else:  # pragma: no cover
+        raise AssertionError(source)
+    case["server"] = {"kind": "raw", "raw": resp, "close": source in ("resp-partial-eof", "resp-close") or rng.random() < 0.3}
+
+
 def gen_case(rng, idx):
     """Returns dict(mode, reqs[{raw, method, tag}], source, marker, server: dict, open_error, options, via, feats)."""
     mode = rng.choice(MODES)
     n = 1000 + rng.randrange(9000)
     r = rng.random()
     source = rng.choice(CLIENT_SOURCES) if r < 0.45 else rng.choice(SERVER_SOURCES) if r < 0.92 else rng.choice(OTHER_SOURCES)
+    if source.startswith("upstream-proxy"):
+        mode = "regular"  # the addon assigns flow.server_conn.via, which needs a connection that is not open yet
     m = marker(rng, n)
     ms = marker(rng, n, spaces=True)
     case = {"mode": mode, "source": source, "n": n, "marker": m, "server": None, "open_error": None, "options": {}, "via": False, "reflect": True, "feats": set()}
@@ -155,44 +199,7 @@ def gen_case(rng, idx):
     elif source == "connect-fail":
         case["open_error"] = ms
     else:
-        S = mb(ms)
-        S1 = S.replace(b"\n", b" ")
-        if source == "resp-line":
-            resp = rng.choice([b"HTTP/1.1 " + M + b" OK", M, b"HTTP/1.1 2" + M + b"0 OK", b"HTTP/1.1"]) + b"\r\nContent-Length: 0\r\n\r\n"
-        elif source == "resp-version":
-            resp = b"HTTP/" + M + b" 200 OK\r\nContent-Length: 0\r\n\r\n"
-        elif source == "resp-header-nocolon":
-            resp = b"HTTP/1.1 200 OK\r\n" + S1 + b"\r\nContent-Length: 0\r\n\r\n"
-        elif source == "resp-cl-invalid":
-            resp = b"HTTP/1.1 200 OK\r\nContent-Length: " + S1 + b"\r\n\r\n"
-        elif source == "resp-te-unknown":
-            resp = b"HTTP/1.1 200 OK\r\nTransfer-Encoding: " + S1 + b"\r\n\r\n"
-        elif source == "resp-name-invalid":
-            resp = b"HTTP/1.1 200 OK\r\nX" + M.replace(b":", b"") + b": v\r\nContent-Length: 0\r\n\r\n"
-        elif source == "resp-partial-eof":
-            resp = rng.choice([b"HTTP/1.1 200 OK\r\nX-Y: " + S1, S1, b"HTTP/1.1 200 " + M])
-        elif source == "resp-close":
-            resp = b""
-            case["reflect"] = False
-        elif source == "resp-chunk-bad":
-            resp = b"HTTP/1.1 200 OK\r\nTransfer-Encoding: chunked\r\n\r\n" + rng.choice([M + b"\r\nabc\r\n0\r\n\r\n", b"3\r\nabc" + M + b"\r\n0\r\n\r\n", b"3;" + M + b"\r\nabc\r\n0\r\n\r\n"])
-            case["reflect"] = None  # depends on what h11 says
-        elif source == "resp-too-large":
-            case["options"]["body_size_limit"] = "3"
-            resp = b"HTTP/1.1 200 OK\r\nX-M: " + S1 + b"\r\nContent-Length: 10\r\n\r\n0123456789"
-            case["reflect"] = False
-        elif source == "resp-te-204":
-            resp = b"HTTP/1.1 204 " + M + b"\r\nTransfer-Encoding: chunked\r\n\r\n"
-            case["reflect"] = False
-        elif source == "upstream-proxy-refused":
-            case["via"] = True
-            resp = b"HTTP/1.1 " + rng.choice([b"407", b"403", b"502"]) + b" " + S1 + b"\r\nContent-Length: 0\r\n\r\n"
-        elif source == "upstream-proxy-garbage":
-            case["via"] = True
-            resp = rng.choice([S1 + b"\r\n\r\n", b"HTTP/1.1 " + M + b" x\r\n\r\n", b"HTTP/1.1 200 OK\r\n" + S1 + b"\r\n\r\n"])
-        else:  # pragma: no cover
-            raise AssertionError(source)
-        case["server"] = {"kind": "raw", "raw": resp, "close": source in ("resp-partial-eof", "resp-close") or rng.random() < 0.3}
+        server_side(rng, source, case, M, ms)
     if raw is None:
         head = method.encode() + b" " + target + b" " + version + b"\r\n"
         for a, b in headers:
@@ -207,4 +214,67 @@ def gen_case(rng, idx):
     case["server_seg"] = rng.choice(["whole", "random", "bytes"])
     case["schedule"] = rng.choice(["fifo", "random", "random"])
     case["validate"] = rng.random() < 0.85
+    return case
+
+
+H2_CLIENT_SOURCES = ["h2-scheme", "h2-scheme", "h2-name-invalid", "h2-cl-invalid", "h2-no-authority", "h2-too-large", "h2-te", "h2-valid-with-markers"]
+H2_SERVER_SOURCES = [x for x in SERVER_SOURCES if x not in ("resp-te-204",)]
+
+
+def gen_h2_case(rng, idx):
+    """HTTP/2 client in front of HTTP/1 origins. reqs = list of dict(tag, method, headers, body)."""
+    mode = rng.choice(MODES)
+    n = 1000 + rng.randrange(9000)
+    source = rng.choice(H2_CLIENT_SOURCES) if rng.random() < 0.45 else rng.choice(H2_SERVER_SOURCES)
+    if source.startswith("upstream-proxy"):
+        mode = "regular"
+    m = marker(rng, n)
+    ms = marker(rng, n, spaces=True)
+    M = mb(m)
+    case = {"proto": "h2", "mode": mode, "source": source, "n": n, "marker": m, "server": None, "open_error": None, "options": {}, "via": False, "reflect": True, "feats": set()}
+    reqs = []
+    if rng.random() < 0.3 and source not in ("connect-fail", "upstream-proxy-refused", "upstream-proxy-garbage"):
+        tag0 = b"t0-%06x" % rng.getrandbits(24)
+        reqs.append({"tag": tag0, "method": "GET", "headers": [(b":method", b"GET"), (b":scheme", b"http"), (b":authority", b"example.com"), (b":path", b"/" + tag0)], "body": b""})
+        case["feats"].add("with-other-stream")
+    tag = b"t%d-%06x" % (len(reqs), rng.getrandbits(24))
+    method = rng.choice(["GET", "GET", "POST", "PUT", "DELETE"]) if rng.random() < 0.95 else "HEAD"
+    scheme, authority, path = b"http", b"example.com", b"/" + tag
+    extra = [(b"x-marker", mb(ms).replace(b"\n", b" ").strip())]
+    body = b""
+    if source == "h2-scheme":
+        scheme = rng.choice([M, b"ht" + M, M.lower()])
+    elif source == "h2-name-invalid":
+        extra.append((b"x" + M.lower().replace(b":", b"").replace(b" ", b""), b"v"))
+    elif source == "h2-cl-invalid":
+        extra.append((b"content-length", rng.choice([M, b"1" + M, b"+0"])))
+    elif source == "h2-no-authority":
+        authority = None
+        case["reflect"] = False
+    elif source == "h2-too-large":
+        method = "POST"
+        case["options"]["body_size_limit"] = "3"
+        body = b"0123456789"
+        if rng.random() < 0.5:
+            extra.append((b"content-length", b"10"))
+        case["reflect"] = False
+    elif source == "h2-te":
+        extra.append((b"transfer-encoding", M))
+    elif source == "h2-valid-with-markers":
+        case["server"] = {"kind": "echo"}
+        case["reflect"] = False
+    elif source == "connect-fail":
+        case["open_error"] = ms
+    else:
+        server_side(rng, source, case, M, ms)
+    headers = [(b":method", method.encode()), (b":scheme", scheme), (b":path", path)]
+    if authority is not None:
+        headers.insert(2, (b":authority", authority))
+    headers += extra
+    reqs.append({"tag": tag, "method": method, "headers": headers, "body": body})
+    case["reqs"] = reqs
+    case["client_seg"] = rng.choice(["whole", "whole", "random", "bytes"])
+    case["server_seg"] = rng.choice(["whole", "random", "bytes"])
+    case["schedule"] = rng.choice(["fifo", "random", "random"])
+    case["validate"] = rng.random() < 0.8
     return case
